@@ -29,6 +29,24 @@ CHECKS["C03"] = dict(
     text="For every complete mask-admitted sequence of every alphabet instance in every reward mode the library reward equals the independently recomputed objective, also after post-finish padding steps; violations are confirmed on a solo (batch size 1) replay before being reported.",
     ref="DESIGN.md section 4 C03",
 )
+CHECKS["C04"] = dict(
+    engine="E2 ProductExplorer",
+    technique="lock-step product exploration: every complete action sequence of X run solo vs in batched frontier / interleaved pairs / genuine 2- and 3-row batches with padding; masks, finishing step, reward compared",
+    text="For every alphabet subject instance all complete mask-admitted sequences are executed solo and in several batch layouts next to unrelated instances driven along their shortest/longest episodes (inducing post-finish padding on either side); any difference in mask, finishing step or reward is a counterexample (float ties inside the oracle's tolerance band are excused and counted).",
+    ref="DESIGN.md section 4 C04",
+)
+CHECKS["C05"] = dict(
+    engine="E1 EnvExplorer",
+    technique="explicit-state exhaustive BFS of env.step; reached solution set compared with brute-force enumeration of the problem definition (set inclusion + optimum)",
+    text="The set of complete solutions reachable through the mask (exhaustive tree) is compared, in canonical form, with the brute-force set of feasible solutions of the independent definition for every enumerable alphabet instance incl. exact-equality boundary instances; hidden feasible solutions and unreachable optima are counterexamples.",
+    ref="DESIGN.md section 4 C05",
+)
+CHECKS["C06"] = dict(
+    engine="E1 EnvExplorer",
+    technique="exhaustive enumeration of candidate solutions (all mask-generated leaves, all brute-force candidates, alternative encodings, all single-fault corruptions) against check_solution_validity, classified by the oracle",
+    text="Every mask-generated solution, every brute-force candidate (feasible and infeasible), alternative encodings and all single-fault corruptions of feasible solutions are fed to the shipped checker; the oracle decides accept/reject expectations; in-band candidates are skipped.",
+    ref="DESIGN.md section 4 C06",
+)
 
 NOT_YET = {}
 
